@@ -372,11 +372,11 @@ Proof.
   2: { unfold check_bounds in Ecb. repeat (destruct (_ : bool) in Ecb; try discriminate). }
   pose proof (rf_frames_spec p data bs Hwf ltac:(lia)) as Hf.
   destruct (rf_frames p data bs) as [[fl bs3]|c|]; cbn [bind]; [|right; split; [reflexivity|left; assumption]|assumption].
-  destruct (build_tiling data 0 fl ltac:(lia) ltac:(lia) Hf) as (Hdry & _ & _).
+  destruct (build_tiling data base fl Hb Hmax Hf) as (Hdry & _ & _).
   rewrite Hdry. cbn [bind].
   destruct Hwf as (H1 & H2 & H3 & H4 & H5 & H6 & H7).
-  pose proof (padding_spec p (rfLen p - zlen (encode (map (wire data 0) fl))) bs3 fl H5 H6) as Hp.
-  specialize (Hp ltac:(pose proof (zlen_nonneg (encode (map (wire data 0) fl))); lia)).
+  pose proof (padding_spec p (rfLen p - zlen (encode (map (wire data base) fl))) bs3 fl H5 H6) as Hp.
+  specialize (Hp ltac:(pose proof (zlen_nonneg (encode (map (wire data base) fl))); lia)).
   destruct (padding p _ bs3 fl) as [[fl2 bs4]|c|]; cbn [bind]; [|right; split; [reflexivity|left; assumption]|assumption].
   destruct Hp as (pads & -> & Hpads).
   pose proof (shuffle_outcome (fl ++ pads) us) as Hs.
